@@ -83,10 +83,26 @@ def main(argv=None) -> int:
     except MachineryError as ex:
         print(f"MACHINERY-FAILURE property={pid}: {ex}", file=sys.stderr)
         return 2
-    except Exception:
+    except Exception as ex:
         traceback.print_exc()
-        print(f"MACHINERY-FAILURE property={pid}: unexpected exception in the harness", file=sys.stderr)
-        return 2
+        # Which part failed?  The deepest frame that belongs to the harness decides: the TLC / parsing / bookkeeping layer is
+        # machinery (exit 2); a driver, oracle or projection helper choking on what the implementation handed back means the
+        # implementation's output does not have the promised form - that is a verdict about the code under test (exit 1).
+        frames = [f for f in traceback.extract_tb(ex.__traceback__) if "/harness/" in f.filename]
+        deepest = frames[-1] if frames else None
+        machinery_files = ("core.py", "tlc.py", "tlaparse.py", "cli.py", "manifest_gen.py", "selftest.py")
+        if deepest is None or deepest.filename.endswith(machinery_files) or ctx.only_key is not None:
+            print(f"MACHINERY-FAILURE property={pid}: unexpected exception in the harness", file=sys.stderr)
+            return 2
+        where = f"{deepest.filename.split('/harness/')[-1]}:{deepest.lineno}"
+        try:
+            ctx.violation(f"implementation output could not be projected by the harness ({type(ex).__name__} at {where})",
+                          dict(exception=type(ex).__name__, message=str(ex)[:500], where=where))
+            return ctx.finish()
+        except Exception:
+            traceback.print_exc()
+            print(f"MACHINERY-FAILURE property={pid}: unexpected exception in the harness", file=sys.stderr)
+            return 2
 
 
 if __name__ == "__main__":
